@@ -166,8 +166,17 @@ def one_case(c, rng, tmp):
                         attrs=attrs or None, shuffle=shuffle, verbosity=0, **extra)
             else:
                 f = xyzpy.combo_runner_to_df if to_df else xyzpy.combo_runner_to_ds
+                cases_d = None
+                if sw.cases:
+                    # dict cases: the first fixes the argument order, later ones may spell their keys in any order
+                    cases_d = sw.cases_dicts()
+                    for ci in range(1, len(cases_d)):
+                        items = list(cases_d[ci].items())
+                        if len(items) > 1 and rng.random() < 0.5:
+                            rng.shuffle(items)
+                            cases_d[ci] = dict(items)
                 out = f(fn, combos, var_names, var_dims=var_dims, var_coords=var_coords,
-                        cases=sw.cases_dicts() if sw.cases else None, constants=constants or None,
+                        cases=cases_d, constants=constants or None,
                         resources=resources or None, attrs=attrs or None, shuffle=shuffle, verbosity=0, **extra)
         else:
             if api == "label":
